@@ -81,7 +81,21 @@ def gen_cases(ctx, n):
         elif m < 0.24:
             d = math.cos(rng.uniform(0, 6)) * e1 + math.sin(rng.uniform(0, 6)) * e2; d /= np.linalg.norm(d); mode = 'parallel'
         exact = mode == 'parallel' and kind in ('family(0, 0, 1)', 'family(0, 0, -1)', 'family(1, 0, 0)', 'family(0, -1, 0)')
-        out.append({'tri': tri.tolist(), 'o': o.tolist(), 'd': d.tolist(), 'kind': kind, 'where': where, 'mode': mode, 'al': al, 'be': be, 'scale': scale, 'exact_parallel': exact})
+        out.append({'tri': tri.tolist(), 'o': o.tolist(), 'd': d.tolist(), 'kind': kind, 'where': where, 'mode': mode, 'al': al, 'be': be, 'scale': scale, 'exact_parallel': exact,
+                    'form': 'f32' if i % 7 == 3 else None})
+    # integer-typed inputs (an ordinary way to write an axis-aligned ray and a triangle on lattice points): NumPy API receives int64 arrays
+    k = 0
+    while k < max(4, n // 6):
+        tri = np.array([[rng.randint(-6, 6) for _ in range(3)] for _ in range(3)], float)
+        nn = np.cross(tri[0] - tri[1], tri[2] - tri[1])
+        ax = rng.randrange(3); sgn = rng.choice([-1, 1])
+        if np.linalg.norm(nn) < 4 or abs(nn[ax]) / np.linalg.norm(nn) < 0.2: continue
+        d = np.zeros(3); d[ax] = sgn
+        o = np.array([rng.randint(-5, 5) for _ in range(3)], float)
+        t_signed = float(np.dot(nn, tri[0] - o) / np.dot(nn, d))
+        if abs(t_signed) < 0.25: continue
+        out.append({'tri': tri.tolist(), 'o': o.tolist(), 'd': d.tolist(), 'kind': 'lattice', 'where': 'any', 'mode': 'toward' if t_signed > 0 else 'behind', 'al': 0.0, 'be': 0.0, 'scale': 1.0, 'exact_parallel': False, 'form': 'int'})
+        k += 1
     return out
 
 
@@ -96,7 +110,8 @@ def run_torch(c):
 
 def run_numpy(c):
     _, nr = api()
-    tri = np.array(c['tri'], float); ray = np.array([c['o'], c['d']], float)
+    dt = {'int': np.int64, 'f32': np.float32}.get(c.get('form'), float)
+    tri = np.array(c['tri'], float).astype(dt); ray = np.array([c['o'], c['d']], float).astype(dt)
     nrm = nr.get_triangle_normal(tri)
     normal, dist = nr.intersect_w_surface(ray, tri)
     res = nr.intersect_w_triangle(ray, tri)
@@ -108,7 +123,9 @@ def oracle_case(inp):
     """All clauses of the property for one (triangle, ray) pair in one API."""
     c, which = inp, inp['api']
     tri = np.array(c['tri'], float); o = np.array(c['o'], float); d = np.array(c['d'], float)
-    tol = TOL32 if which == 'torch' else TOL64
+    tol = TOL32 if (which == 'torch' or c.get('form') == 'f32') else TOL64
+    if c.get('form') == 'f32':          # the oracle judges the values the function received
+        tri = tri.astype(np.float32).astype(float); o = o.astype(np.float32).astype(float); d = d.astype(np.float32).astype(float)
     raw = np.cross(tri[0] - tri[1], tri[2] - tri[1]); nhat = raw / np.linalg.norm(raw)
     L = max(np.linalg.norm(tri[0] - tri[1]), np.linalg.norm(tri[2] - tri[1]), np.linalg.norm(tri[2] - tri[0]))
     ext = max(L, np.linalg.norm(o - tri[0]))
